@@ -766,6 +766,13 @@ def run_actor_property(chk, module, theorems, monitor_pids=None, controllers=Non
         chk.sample({"scenarios": res["scenarios"], "events": res["events"], "example_phases": res["leaves"][:6]})
     if extra is not None:
         extra(chk, info, res)
+    if chk.tier == "thorough" and lean_ok:
+        # independent replay of the kernel certificates (every chunk module) with leanchecker, 8 at a time, once per tree
+        from concurrent.futures import ThreadPoolExecutor
+
+        mods = ["Poupool.Generated.ActorCerts"] + sorted("Poupool.Generated.Cert." + os.path.basename(f)[:-5] for f in glob.glob(os.path.join(GEN, "Cert", "*.lean")))
+        with ThreadPoolExecutor(8) as ex:
+            list(ex.map(lambda m: lean.leanchecker(chk, m), mods))
     return info, res
 
 
